@@ -478,7 +478,13 @@ func (vfs *OrefaFS) Mkdir(name string, perm fs.FileMode) error {
 
 	if !parentOk {
 		for !parentOk {
-			dirName, _ = avfs.SplitAbs(vfs, dirName)
+			up, _ := avfs.SplitAbs(vfs, dirName)
+			if up == dirName {
+				// Nothing of the path exists, not even its volume.
+				return &fs.PathError{Op: op, Path: name, Err: vfs.err.NoSuchDir}
+			}
+
+			dirName = up
 			parent, parentOk = vfs.nodes[dirName]
 		}
 
@@ -542,7 +548,13 @@ func (vfs *OrefaFS) MkdirAll(path string, perm fs.FileMode) error {
 
 		ds = append(ds, dirName)
 
-		dirName, _ = avfs.SplitAbs(vfs, dirName)
+		up, _ := avfs.SplitAbs(vfs, dirName)
+		if up == dirName {
+			// Nothing of the path exists, not even its volume.
+			return &fs.PathError{Op: op, Path: path, Err: vfs.err.NoSuchDir}
+		}
+
+		dirName = up
 	}
 
 	// ds lists the missing directories from the deepest one upwards: create them top-down.
@@ -717,7 +729,13 @@ func (vfs *OrefaFS) Remove(name string) error {
 	if !childOk || !parentOk {
 		// As in Mkdir: the first existing ancestor tells a missing name from a file used as a directory.
 		for !parentOk {
-			dirName, _ = avfs.SplitAbs(vfs, dirName)
+			up, _ := avfs.SplitAbs(vfs, dirName)
+			if up == dirName {
+				// Nothing of the path exists, not even its volume.
+				return &fs.PathError{Op: op, Path: name, Err: vfs.err.NoSuchDir}
+			}
+
+			dirName = up
 			parent, parentOk = vfs.nodes[dirName]
 		}
 
